@@ -5528,6 +5528,96 @@ def c17_mixture_functions():
     return out
 
 
+def c16_shift_deme_time():
+    """DemesUtil._shift_deme_time(d, t) for a deme with two epochs (start S > E1 > E2 >= 0, every number symbolic, 0 < t < S), _size_at abstract
+    (every call recorded).  On every path:
+      * start_time becomes S - t; other keys are carried over;
+      * epochs are kept, in order, up to and including the first one whose end time is <= t; each kept epoch's end time becomes max(0, end - t);
+      * that last epoch's end size becomes _size_at(t, its start_size, its end_size, ITS OWN start time, its original end time, its size_function),
+        where an epoch's own start time is the deme's start for the first epoch and the ORIGINAL end time of the previous epoch otherwise
+        (not the shifted one);  epochs that end after t keep their sizes."""
+    oid = 'C16/DemesUtil.py:_shift_deme_time'
+    fn = 'dadi/Demes/DemesUtil.py::_shift_deme_time'
+
+    @guarded(oid, fn)
+    def go():
+        S, E1, E2, t = z3.Reals('S E1 E2 t')
+        hy = [S > E1, E1 > E2, E2 >= 0, t > 0, t < S]
+        sz = {(i, w): z3.Real('%s_size%d' % (w, i)) for i in (1, 2) for w in ('start', 'end')}
+        calls = []
+
+        def pol(fr):
+            if fr.qualname == '_size_at':
+                def h(ex_, f_, a, kw):
+                    r = z3.Real('size_at_%d' % (len(calls) + 1))
+                    calls.append((list(a), r))
+                    return r
+                return h
+            return 'inline' if fr.qualname == '_shift_deme_time' else 'abstract'
+        ex = Executor(policy=pol, max_paths=64)
+        f = ex.func('dadi/Demes/DemesUtil.py', '_shift_deme_time')
+        other = Tm('name_value')
+
+        def thunk(e):
+            del calls[:]
+            ep = [VDict({'start_size': sz[(i, 'start')], 'end_size': sz[(i, 'end')], 'end_time': (E1, E2)[i - 1], 'size_function': 'f%d' % i}) for i in (1, 2)]
+            d = VDict({'name': other, 'start_time': S, 'epochs': VList(ep)})
+            r = e.apply(f.node, None, f.mod, [d, t], {}, '_shift_deme_time')
+            return r, [(list(a), rr) for a, rr in calls]
+        paths = ex.explore(thunk, base_pc=hy)
+        out = []
+        rets = [p for p in paths if p.outcome == 'return']
+        out.append(struct(oid + '.paths', len(rets) == len(paths) and len(rets) >= 3, '%d paths, all returning' % len(paths), fn, undecided=len(rets) != len(paths)))
+        from vf import smt
+        starts = {1: S, 2: E1}
+        ends = {1: E1, 2: E2}
+        for k, p in enumerate(rets):
+            r, cs = p.value
+            pc = list(hy) + list(p.pc)
+            o = '%s.path%d' % (oid, k)
+            if not isinstance(r, VDict) or not isinstance(r.d.get('epochs'), VList):
+                out.append(struct(o, False, 'result is not a deme dictionary: %s' % vrepr(r)[:100], fn))
+                continue
+            # which epochs must survive on this path
+            first_ends = smt.check(pc, E1 <= t, timeout_ms=3000, use_cli=False)['status'] == 'proved'
+            first_open = smt.check(pc, E1 > t, timeout_ms=3000, use_cli=False)['status'] == 'proved'
+            second_ends = smt.check(pc, E2 <= t, timeout_ms=3000, use_cli=False)['status'] == 'proved'
+            second_open = smt.check(pc, E2 > t, timeout_ms=3000, use_cli=False)['status'] == 'proved'
+            if not (first_ends or first_open) or (first_open and not (second_ends or second_open)):
+                out.append(struct(o, False, 'the path does not decide where t falls', fn, undecided=True))
+                continue
+            keep = [1] if first_ends else [1, 2]
+            last_cut = 1 if first_ends else (2 if second_ends else None)
+            eps_ = r.d['epochs'].items
+            ok_n = len(eps_) == len(keep) and all(isinstance(e_, VDict) for e_ in eps_)
+            goals = [(to_real(exact(r.d.get('start_time', 0))) == S - t, 'start_time == S - t')]
+            okk = r.d.get('name') is other
+            if ok_n:
+                for i, e_ in zip(keep, eps_):
+                    want_end = z3.RealVal(0) if i == last_cut else ends[i] - t
+                    goals.append((to_real(exact(e_.d['end_time'])) == want_end, 'epoch %d end_time' % i))
+                    goals.append((to_real(exact(e_.d['start_size'])) == sz[(i, 'start')], 'epoch %d start_size kept' % i))
+                    okk = okk and e_.d.get('size_function') == 'f%d' % i
+                    if i == last_cut:
+                        mine = [c for c in cs if c[1] is e_.d['end_size'] or (isinstance(e_.d['end_size'], z3.ExprRef) and c[1].eq(e_.d['end_size']))]
+                        if len(mine) != 1 or len(mine[0][0]) != 6:
+                            goals.append((z3.BoolVal(False), 'epoch %d end_size is the result of one _size_at call' % i))
+                        else:
+                            a = mine[0][0]
+                            goals += [(to_real(exact(a[0])) == t, 'size at the slice time t'), (to_real(exact(a[1])) == sz[(i, 'start')], '_size_at start_size of epoch %d' % i),
+                                      (to_real(exact(a[2])) == sz[(i, 'end')], '_size_at end_size of epoch %d' % i),
+                                      (to_real(exact(a[3])) == starts[i], '_size_at start time = the epoch\'s own (unshifted) start'),
+                                      (to_real(exact(a[4])) == ends[i], '_size_at end time = the epoch\'s original end'),
+                                      (z3.BoolVal(a[5] == 'f%d' % i), '_size_at size_function of epoch %d' % i)]
+                    else:
+                        goals.append((to_real(exact(e_.d['end_size'])) == sz[(i, 'end')], 'epoch %d end_size kept' % i))
+            mm = discharge(goals, pc) if ok_n else 'kept %d epochs, expected %s' % (len(eps_), keep)
+            out.append(struct(o + ('.cut-in-epoch%s' % last_cut if last_cut else '.no-cut'), mm is None and okk, mm or ('other keys not carried over' if not okk else
+                              'start time, kept epochs, shifted end times, end size at the slice time from the epoch\'s own time span'), fn, finding_key='C16/_shift_deme_time'))
+        return out
+    return go()
+
+
 def c16_integration_event(K):
     """Event recording in the numerical layer (mechanism 5 of C16): what Integration.{one..five}_pops append to dadi.Demes.cache.
     For every T > initial_t (initial_t symbolic, not just 0) and every deme_ids value:
